@@ -233,6 +233,8 @@ def dnf(e, truth=True):
 
 import re as _re
 _CONST_PLUS = _re.compile(r"^(-?\d+) \+ (.*)$")
+# names that a rule declares integer-valued for the duration of one table comparison (see consistent())
+INT_NAMES = set()
 
 
 def consistent(conds):
@@ -271,6 +273,51 @@ def consistent(conds):
                 eqs.setdefault(m.group(2), set()).add(int(m.group(1)))
     if any(len(v) > 1 for v in eqs.values()):
         return False
+    # linear bounds: K1 + X < 0, 0 < K2 + X, K3 + X == 0 over the same linear form X leave X an empty range
+    # (`year >= Y + 50` and `year < Y - 50` cannot both hold).  Over the reals; for forms made only of names listed in
+    # INT_NAMES (set by a rule for integer-valued fields) a strict bound is tightened by one.
+    bounds = {}
+    for a, t in seen.items():
+        form = None
+        if a[0] == "<" and a[2] == "0":
+            form, kind = a[1], ("lt" if t else "ge")        # A < 0  /  A >= 0
+        elif a[0] == "<" and a[1] == "0":
+            form, kind = a[2], ("gt" if t else "le")        # 0 < A  /  A <= 0
+        elif a[0] == "==" and t and "0" in (a[1], a[2]):
+            form, kind = (a[2] if a[1] == "0" else a[1]), "eq"
+        if not isinstance(form, str):
+            continue
+        m = _CONST_PLUS.match(form)
+        k, rest = (int(m.group(1)), m.group(2)) if m else (0, form)
+        if not rest or _is_literal_text(rest):
+            continue
+        is_int = bool(INT_NAMES) and all(n_ in INT_NAMES for n_ in _re.findall(r"[A-Za-z_][A-Za-z_0-9.]*", rest))
+        lo, hi = bounds.setdefault(rest, [None, None])      # each: (value, strict)
+        v = -k
+
+        def tighter_lo(new):
+            cur = bounds[rest][0]
+            if cur is None or new[0] > cur[0] or (new[0] == cur[0] and new[1] and not cur[1]):
+                bounds[rest][0] = new
+
+        def tighter_hi(new):
+            cur = bounds[rest][1]
+            if cur is None or new[0] < cur[0] or (new[0] == cur[0] and new[1] and not cur[1]):
+                bounds[rest][1] = new
+        if kind == "lt":
+            tighter_hi((v - 1, False) if is_int else (v, True))
+        elif kind == "ge":
+            tighter_lo((v, False))
+        elif kind == "gt":
+            tighter_lo((v + 1, False) if is_int else (v, True))
+        elif kind == "le":
+            tighter_hi((v, False))
+        else:
+            tighter_lo((v, False))
+            tighter_hi((v, False))
+    for rest, (lo, hi) in bounds.items():
+        if lo is not None and hi is not None and (lo[0] > hi[0] or (lo[0] == hi[0] and (lo[1] or hi[1]))):
+            return False
     # X == 'a' and X == 'b' (two different literals) cannot both hold; X == 'a' decides X in ('a', 'b', ...)
     lits = {}
     for a, t in seen.items():
